@@ -43,6 +43,23 @@ func compareRotated(what string, got gts.Feature, want Feat, L, n int) *Violatio
 	if v := compareFeatureCirc(what, got, want, expDen, expM, L, true); v != nil {
 		return v
 	}
+	// "a full-length feature stays full-length": a single range over the whole sequence (either strand, whatever its
+	// partial markers) is not opened at the new origin - it comes back as the same range
+	if w, depth := want.Loc, 0; true {
+		for w.K == "co" && len(w.Parts) == 1 {
+			w, depth = w.Parts[0], depth+1
+		}
+		if w.K == "rg" && w.A == 0 && w.B == L && L > 0 {
+			g, ok := fromGts(got.Loc)
+			gd := 0
+			for ok && g.K == "co" && len(g.Parts) == 1 {
+				g, gd = g.Parts[0], gd+1
+			}
+			if !ok || g.K != "rg" || g.A != 0 || g.B != L || gd%2 != depth%2 || g.P5 != w.P5 || g.P3 != w.P3 {
+				return viol("full-length", "%s: the full-length feature %s came back as %s", what, want.Loc, got.Loc)
+			}
+		}
+	}
 	if !hasResidue(expDen) {
 		ast, _ := fromGts(got.Loc)
 		es, as := sitesModL(expDen, L), sitesModL(den(ast), L)
